@@ -136,6 +136,9 @@ def build_program(asn1c, workdir, modname, config, harness_objs, cflags=SAN_CFLA
     with open(tagc, "w") as f:
         f.write('const char *sim_program = "%s";\n' % tag)
     objs += compile_many("gcc", [tagc], os.path.join(workdir, "obj-rt-" + tag), ["-O1"])
+    # the repository's own stream loop, in-process (per program: it includes the generated directory's copy)
+    objs += compile_many("gcc", [os.path.join(VERIF, "sim", "conv_embed.c")], os.path.join(workdir, "obj-rt-" + tag),
+                         list(cflags) + ["-w", "-I" + gendir, "-DASN_PDU_COLLECTION", '-DCONV_SRC="%s"' % os.path.join(gendir, "converter-example.c")])
     exe = os.path.join(workdir, "simrun-" + tag)
     link_simrun(objs + list(harness_objs), exe, cflags)
     return exe
